@@ -372,6 +372,86 @@ def conv_cases(chk):
 
 # ------------------------------------------------------------------ main driver
 
+def server_stream(chk, fresh_dir, clean):
+    """[unix_http_server] / [inet_http_server] sections: every key, default,
+    configured falsy value and bad value; accepted sections are compared with
+    what the documentation says the keys mean, bad ones must be ValueError."""
+    import socket
+    import c14_cfg
+    cases = []
+
+    def add(label, secs, expect):
+        cases.append((label, [('supervisord', [])] + secs, expect))
+    U, I = 'unix_http_server', 'inet_http_server'
+    add('unix defaults', [(U, [('file', '%(here)s/run/s.sock')])], [{'family': 'unix', 'file': '{here}/run/s.sock', 'chmod': 0o700,
+                                                                    'chown': (-1, -1), 'username': None, 'password': None}])
+    add('unix all keys', [(U, [('file', '/tmp/c14.sock'), ('chmod', '0770'), ('chown', 'root:root'), ('username', 'u'), ('password', 'p')])],
+        [{'family': 'unix', 'file': '/tmp/c14.sock', 'chmod': 0o770, 'chown': (0, 0), 'username': 'u', 'password': 'p'}])
+    add('unix chmod 000, chown user only', [(U, [('file', '/tmp/c14.sock'), ('chmod', '000'), ('chown', 'root')])],
+        [{'family': 'unix', 'file': '/tmp/c14.sock', 'chmod': 0, 'chown': (0, -1), 'username': None, 'password': None}])
+    add('unix file with ENV', [(U, [('file', '/tmp/%(ENV_C14_A)s.sock')])],
+        [{'family': 'unix', 'file': '/tmp/alpha.sock', 'chmod': 0o700, 'chown': (-1, -1), 'username': None, 'password': None}])
+    add('inet host:port', [(I, [('port', 'LocalHost:9001')])], [{'family': 'inet', 'host': 'localhost', 'port': 9001, 'username': None, 'password': None}])
+    add('inet port only', [(I, [('port', '9001'), ('username', 'u'), ('password', '')])],
+        [{'family': 'inet', 'host': '', 'port': 9001, 'username': 'u', 'password': ''}])
+    add('inet *:port', [(I, [('port', '*:65535')])], [{'family': 'inet', 'host': '', 'port': 65535, 'username': None, 'password': None}])
+    add('inet and unix', [(U, [('file', '/tmp/c14.sock')]), (I, [('port', '127.0.0.1:1')])],
+        [{'family': 'inet', 'host': '127.0.0.1', 'port': 1, 'username': None, 'password': None},
+         {'family': 'unix', 'file': '/tmp/c14.sock', 'chmod': 0o700, 'chown': (-1, -1), 'username': None, 'password': None}])
+    for label, secs in [
+        ('unix without file', [(U, [('chmod', '0700')])]),
+        ('unix chmod 999', [(U, [('file', '/tmp/c14.sock'), ('chmod', '999')])]),
+        ('unix chmod empty', [(U, [('file', '/tmp/c14.sock'), ('chmod', '')])]),
+        ('unix chown unknown user', [(U, [('file', '/tmp/c14.sock'), ('chown', 'no_such_user_c14')])]),
+        ('unix chown unknown group', [(U, [('file', '/tmp/c14.sock'), ('chown', 'root:no_such_group_c14')])]),
+        ('unix username without password', [(U, [('file', '/tmp/c14.sock'), ('username', 'u')])]),
+        ('unix password without username', [(U, [('file', '/tmp/c14.sock'), ('password', 'p')])]),
+        ('unix file with unknown name', [(U, [('file', '/tmp/%(nope)s.sock')])]),
+        ('unix file with process_num', [(U, [('file', '/tmp/%(process_num)d.sock')])]),
+        ('inet without port', [(I, [('username', 'u'), ('password', 'p')])]),
+        ('inet port 0', [(I, [('port', '0')])]), ('inet port 65536', [(I, [('port', 'localhost:65536')])]),
+        ('inet port empty', [(I, [('port', '')])]), ('inet port host only', [(I, [('port', 'localhost:')])]),
+        ('inet port word', [(I, [('port', 'http')])]), ('inet port negative', [(I, [('port', '-1')])]),
+        ('inet username without password', [(I, [('port', '9001'), ('username', 'u')])]),
+        ('inet bad expansion', [(I, [('port', '%(')])]),
+    ]:
+        add(label, secs, None)
+    n = 0
+    for label, secs, expect in cases:
+        here = fresh_dir()
+        cfg = {'main': secs, 'incs': []}
+        path = c14_cfg.write_case(cfg, here)
+        r = c14_cfg.real_parse(path)
+        n += 1
+        chk.dist('stream:http-server-sections')
+        rep = {'stream': 'server', 'label': label, 'files': _file_texts(cfg, here)}
+        if r[0] == 'exc':
+            rep['kind'] = 'the configuration reader raised %s instead of ValueError' % r[1]
+            rep['message'] = r[2]
+            chk.violation(rep)
+        elif expect is None and r[0] == 'ok':
+            rep['kind'] = 'a malformed [unix_http_server]/[inet_http_server] section was accepted silently'
+            chk.violation(rep)
+        elif expect is not None and r[0] == 'err':
+            rep['kind'] = 'a well-formed [unix_http_server]/[inet_http_server] section was rejected: ' + r[2]
+            chk.violation(rep)
+        elif expect is not None:
+            got = []
+            for c in r[1].configroot.supervisord.server_configs:
+                d = {'family': 'unix' if c['family'] == socket.AF_UNIX else 'inet', 'username': c['username'], 'password': c['password']}
+                if d['family'] == 'unix':
+                    d.update(file=c['file'], chmod=c['chmod'], chown=tuple(c['chown']))
+                else:
+                    d.update(host=c['host'], port=c['port'])
+                got.append(d)
+            want = [dict((k, (v.replace('{here}', here) if isinstance(v, str) else v)) for k, v in e.items()) for e in expect]
+            if got != want:
+                rep['kind'] = 'server section values differ from the file: expected %r, found %r' % (want, got)
+                chk.violation(rep)
+        clean(here)
+    return n
+
+
 def run(chk):
     import c14_defaults
     proved = chk.prove('props/C14.v', gens=[c14_defaults.generate])
@@ -426,7 +506,7 @@ def _run(chk, wd, proved):
         import shutil
         shutil.rmtree(here, ignore_errors=True)
 
-    def one(cfg, stream, label=None, constraint=None, noise=True, must_reject=False):
+    def one(cfg, stream, label=None, constraint=None, noise=True, must_reject=False, spellings=False):
         """Run one structured configuration through the real reader and queue
         the comparison with the model."""
         here = fresh_dir()
@@ -500,7 +580,7 @@ def _run(chk, wd, proved):
                     return
                 accepted_sigs.update(sigs)
             if not sigs:
-                probs = judge_expansions(cfg, here, o)
+                probs = c14_cfg.effective_problems(o) + judge_expansions(cfg, here, o)
                 chk.dist('judged-on-implementation')
                 if probs:
                     replay.update(kind='accepted configuration violates the property: ' + probs[0], problems=probs[:5])
@@ -524,6 +604,29 @@ def _run(chk, wd, proved):
                 chk.dist('processes:%s' % ('0' if nprocs == 0 else '1-3' if nprocs <= 3 else '4-12' if nprocs <= 12 else '13-40' if nprocs <= 40 else '>40'))
                 if cfg.get('incs'):
                     chk.dist('with-include-files')
+        if spellings and r[0] in ('ok', 'err'):
+            # the same tree named by a relative path: identical outcome, %(here)s stays absolute
+            ways = [(os.path.dirname(here), os.path.join(os.path.basename(here), 'supervisord.conf')),
+                    (here, 'supervisord.conf')]
+            if thorough:
+                ways += [(here, './supervisord.conf'), (os.path.join(here, 'logs'), '../supervisord.conf')]
+            first = c14_cfg.dump_or_error(r)
+            for cwd, rel in ways:
+                r2 = c14_cfg.real_parse(rel, cwd=cwd)
+                chk.dist('spelling:relative-path')
+                second = c14_cfg.dump_or_error(r2)
+                probs = []
+                if r2[0] == 'ok' and not sigs:
+                    probs = c14_cfg.effective_problems(r2[1]) + judge_expansions(cfg, here, r2[1])
+                if second != first or probs:
+                    diff = next((('field %d: %r with the absolute path, %r with the relative one' % (i, a_, b_))
+                                 for i, (a_, b_) in enumerate(zip(first, second)) if a_ != b_), 'different length')
+                    replay.update(kind='the configuration gives a different process set when its file is named by the '
+                                       'relative path %r (cwd %r) than by its absolute path: %s' % (rel, cwd, probs[0] if probs else diff),
+                                  spelling={'cwd': cwd, 'path': rel})
+                    chk.violation(replay)
+                    clean(here)
+                    return
         if atoms is not None:
             too_big = any(_int(dict(o_).get('numprocs', '1')) is not None and _int(dict(o_).get('numprocs', '1')) > 200
                           for _, o_ in _sections(cfg))
@@ -534,13 +637,17 @@ def _run(chk, wd, proved):
 
     # ---- 1. corpus, 2. exhaustive small scope, 3. random well-formed
     for fname, cfg in _corpus():
-        one(cfg, 'corpus', label=fname)
+        one(cfg, 'corpus', label=fname, spellings=True)
     sweep = c14_gen.sweep_configs(wd, thorough)
     for cfg in sweep:
-        one(cfg, 'sweep', noise=False)
+        one(cfg, 'sweep', noise=False, spellings=True)
     nrand = 260 if not thorough else 2500
     for _ in range(nrand):
-        one(lambda here: c14_gen.valid_config(rng, here, thorough), 'random')
+        one(lambda here: c14_gen.valid_config(rng, here, thorough), 'random', spellings=True)
+    # ---- 3b. option tables x {falsy, bad} values and expansion variables x keys (generated key lists)
+    grid = c14_gen.table_grid(wd, thorough) + c14_gen.expansion_grid(wd, thorough)
+    for label, cfg in grid:
+        one(cfg, 'grid', label=label, noise=False, spellings=label.startswith('supervisord'))
     # ---- 4. single-point corruptions of a valid configuration
     cors = c14_gen.corruptions(wd, thorough)
     for label, constraint, cfg in cors:
@@ -597,6 +704,9 @@ def _run(chk, wd, proved):
             known('C14-name-empty-or-bracket', label)
         clean(here)
 
+    # ---- 7. [unix_http_server] / [inet_http_server] (outside the model: judged by a small specification)
+    nserver = server_stream(chk, fresh_dir, clean)
+
     # ---- Coq comparison of everything queued
     total = len(cases)
     pre = c14_cfg.coq_preamble()
@@ -640,16 +750,16 @@ def _run(chk, wd, proved):
         chk.violation({'kind': 'proof obligation no longer checks', 'detail': chk.proof_failure,
                        'file': 'coq/props/C14.v'}, nofail=not chk.violations)
     cov = chk.coverage
-    cov['evaluations'] = total + ntext
+    cov['evaluations'] = total + ntext + nserver
     cov['distinct_nontrivial'] = len(distinct)
     cov['traces_validated_against_impl'] = total
     cov['exhaustive'] = False
     cov['rule'] = ('configurations: corpus + exhaustive sweep (%d: numprocs x numprocs_start x name template, group membership x '
-                   'priorities) + %d random well-formed + %d catalogued single-point corruptions + %d planted corruptions + %d ini-text '
+                   'priorities; includes x %%(here)s) + %d grid (every key of every option table x falsy/bad values, every expansion variable x every key) + %d random well-formed + %d catalogued single-point corruptions + %d planted corruptions + %d ini-text '
                    'corruptions; each parsed by the real ServerOptions and compared field by field with the model inside Coq. '
                    'distinct = distinct (outcome, #groups, #processes, group classes, includes) or (error kind, constraint). '
                    'unit streams: format strings over an 11-letter alphabet, KEY=value strings over a 9-letter alphabet, '
-                   'converter inputs' % (len(sweep), nrand, len(cors), planted[0], ntext))
+                   'converter inputs' % (len(sweep), len(grid), nrand, len(cors), planted[0], ntext))
     cov['samples'] = [dict((k, m[k]) for k in ('stream', 'label', 'files')) for m in meta[len(sweep) + 3:len(sweep) + 5]]
     cov['samples'] += [repr(emeta[200]), repr(kmeta[300]), repr(cmeta[100])]
 
